@@ -87,6 +87,8 @@ func C06(c *core.Ctx) {
 	if !tabs.OK {
 		return
 	}
+	// the completeness score and base counts attached to each target are those of its whole sequence, however the file is wrapped
+	checkReaders(c, tabs, "R8/", true, "ReadEncodeScoreAlignment")
 	recT := namedType(c, "pkg/fastaio", "EncodedFastaRecord")
 	if recT == nil {
 		c.Und("R0/types", token.NoPos, "UNRESOLVED type fastaio.EncodedFastaRecord")
